@@ -231,13 +231,19 @@ def parser_tables() -> tuple[dict[str, list[str]], dict[str, bool]]:
 	if len(used) != 1:
 		raise TranslateError('SyntaxParserOfLark.__load_entry: the two branches load the source differently')
 	completes = used.pop()
+	skips_empty = False
 	if completes:
 		ls = _find_func(tree, 'SyntaxParserOfLark', '__load_source')
 		text = ' ; '.join(ast.unparse(s) for s in ls.body if not isinstance(s, ast.Expr))
-		want = "source = self.__source_provider(module_path) ; return source if source.endswith('\\n') else f'{source}\\n'"
-		if text != want:
+		head = 'source = self.__source_provider(module_path) ; '
+		shapes = {
+			head + "return source if source.endswith('\\n') else f'{source}\\n'": False,
+			head + "return source if source.endswith('\\n') or len(source) == 0 else f'{source}\\n'": True,
+		}
+		if text not in shapes:
 			raise TranslateError(f'SyntaxParserOfLark.__load_source: unrecognised body: {text}')
-	return {'parserDiskHandlers': _handlers(t, '__load_entry[on-disk]', ()), 'parserMemHandlers': mem}, {'sourceCompletesNewline': completes}
+		skips_empty = shapes[text]
+	return {'parserDiskHandlers': _handlers(t, '__load_entry[on-disk]', ()), 'parserMemHandlers': mem}, {'sourceCompletesNewline': completes, 'sourceCompletionSkipsEmpty': skips_empty}
 
 
 def interactive_tables() -> dict[str, list[str]]:
@@ -394,6 +400,9 @@ def render(errs: list[tuple[str, str, bool]], bis: list[tuple[str, str | None]],
 	L.append('/-- SyntaxParserOfLark.__load_source appends a line feed to a text that does not end in one (both branches) -/')
 	L.append(f"def sourceCompletesNewline : Bool := {'true' if flags['sourceCompletesNewline'] else 'false'}")
 	L.append('')
+	L.append('/-- … except to the empty text (there is no last line to complete) -/')
+	L.append(f"def sourceCompletionSkipsEmpty : Bool := {'true' if flags['sourceCompletionSkipsEmpty'] else 'false'}")
+	L.append('')
 	L.append('/-- ErrorRender.__build_quotation returns [] for a node without a position (begin line or column < 1) -/')
 	L.append(f"def quotationSpanGuard : Bool := {'true' if flags['quotationSpanGuard'] else 'false'}")
 	L.append('')
@@ -423,6 +432,7 @@ def generate() -> list[dict[str, Any]]:
 		'handlers': {k: len(v) for k, v in tables.items()},
 		'mem_branch_wrapped': bool(tables['parserMemHandlers']),
 		'source_completes_newline': flags['sourceCompletesNewline'],
+		'source_completion_skips_empty': flags['sourceCompletionSkipsEmpty'],
 		'quotation_span_guard': flags['quotationSpanGuard'],
 		'message_str_fallback': flags['messageStrFallback'],
 		'changed': changed,
